@@ -71,6 +71,12 @@ class OverwriteObserver(pipeline.Observer):
         }
 
 
+def _unvar(s):
+    while s is not None and s[0] == 'V' and s[3] is not None:
+        s = s[3]
+    return s
+
+
 def numeric(s):
     return s is not None and s[0] == 'B' and s[1] in (
         'IntegerType', 'ShortType', 'LongType', 'ByteType', 'FloatType', 'DoubleType',
@@ -98,17 +104,55 @@ class C04(PipelineCheck):
     ROUNDS = (0, 0, 1, 1, 2, 3)
     MAX_DEPTH = (1, 6)
     TRANSLATE = False
-    tiers = {'quick': {'runs': 200, 'wall_s': 70, 'run_timeout_s': 300},
+    tiers = {'quick': {'runs': 170, 'wall_s': 70, 'run_timeout_s': 300},
              'thorough': {'runs': 3500, 'wall_s': 1100, 'run_timeout_s': 900}}
 
+    K = 6     # overwriting applications per generated (and erased) program
+
+    def make_config(self, run_seed):
+        c = super().make_config(run_seed)
+        c['only_cp'] = True      # the overwriting is applied by judge(), K times, on copies
+        return c
+
     def observer(self, sim, plan):
-        return OverwriteObserver(self, sim, plan['config'])
+        return pipeline.Observer()
 
     def judge(self, run, obs, sim, plan):
+        import pickle
+        from src.transformations.type_overwriting import TypeOverwriting
         v = {}
         probes = {}
         obl = {'single-edit': 0, 'unrelated': 0, 'message': 0, 'visible-in-text': 0,
                'javac-rejects': 0, 'unchanged-when-not-injected': 0, 'undetermined': 0}
+        c = plan['config']
+        ninj = 0
+        if run.status != 'ok' or run.program is None:
+            return [], {'probes': probes, 'obligations': obl, 'injected': 0}
+        blob = pickle.dumps(run.program, protocol=4)
+        sample = None
+        for k in range(self.K):
+            program = pickle.loads(blob)
+            o = OverwriteObserver(self, sim, c)
+            o.before_transform(run, 'TypeOverwriting', program, 0)
+            try:
+                to = TypeOverwriting(program, c['language'], None,
+                                     {'timeout': c.get('timeout', 600)})
+                to.transform()
+                program = to.result()
+            except SimAbort:
+                raise
+            except Exception:   # noqa  (C18's business)
+                continue
+            o.after_transform(run, 'TypeOverwriting', program, to, 0)
+            ex = self.examine(run, o, sim, plan, v, probes, obl)
+            ninj += ex.get('injected', 0)
+            if sample is None and ex.get('sample') and ex.get('injected'):
+                sample = ex['sample']
+        extra = {'probes': probes, 'obligations': obl, 'injected': ninj,
+                 'sample': sample or {'config': c, 'note': 'no injection in this run'}}
+        return list(v.values()), extra
+
+    def examine(self, run, obs, sim, plan, v, probes, obl):
         c = plan['config']
         lang = c['language']
         res = obs.result
@@ -118,8 +162,8 @@ class C04(PipelineCheck):
             if sig not in v:
                 v[sig] = {'rule': rule, 'sig': sig, 'detail': '%s [lang=%s rounds=%d]' % (
                     detail, lang, c.get('rounds', 0))}
-        if res is None or run.status != 'ok':
-            return [], {'probes': probes, 'obligations': obl, 'injected': 0}
+        if res is None:
+            return {'injected': 0}
         if res['timer_fired']:
             probes['timer_fired'] = 1
         if c.get('rounds', 0):
@@ -158,7 +202,7 @@ class C04(PipelineCheck):
                 if res['texts_after'][l] != obs.texts_before[l]:
                     add('text-changed-without-report', l,
                         'no injection reported but the %s translation changed' % l)
-            return list(v.values()), {'probes': probes, 'obligations': obl, 'injected': 0}
+            return {'injected': 0}
         probes['injected'] = 1
         # ---- (a) exactly one declared type -------------------------------------------
         obl['single-edit'] += 1
@@ -258,9 +302,23 @@ class C04(PipelineCheck):
                 if m.group(2) != str(new_t):
                     add('message-new-type', kind, 'message names %r as the new type, the program '
                         'carries %r' % (m.group(2)[:60], str(new_t)[:60]))
-                if m.group(1) not in obs.strs.values():
-                    add('message-old-type', kind, 'message names %r as the old type, which no '
-                        'declared type of the input program prints as' % m.group(1)[:60])
+                # the replaced type object: the one among the input program's type objects
+                # whose snapshot equals the before-snapshot at the changed position
+                old_lab = None
+                for p_, o_, n_ in diff:
+                    if (kind == 'type-argument' and re.search(r'type_args\[\d+\]$', p_)) or \
+                            (kind != 'type-argument' and p_.endswith(':inferred_type')):
+                        old_lab = o_
+                old_strs = set()
+                if old_lab is not None:
+                    memo = {}
+                    for t_ in obs.keep:
+                        if snap.asnap(t_, memo) == old_lab:
+                            old_strs.add(obs.strs.get(id(t_)))
+                if old_strs and m.group(1) not in old_strs:
+                    add('message-old-type', kind, 'message names %r as the old type, but the '
+                        'type that was replaced prints as %r' % (
+                            m.group(1)[:60], sorted(x for x in old_strs if x)[0][:60]))
             # ---- (b) unrelated ---------------------------------------------------------------
             old_s = None
             for p, o, n in diff:
@@ -282,11 +340,13 @@ class C04(PipelineCheck):
                         rel = 'new-is-supertype'
                     elif b:
                         rel = 'new-is-subtype'
-                    elif numeric(old_obj) and numeric(new_s) and lang in ('java', 'groovy') and \
-                            (old_obj[2] or new_s[2]):
+                    elif numeric(_unvar(old_obj)) and numeric(new_s) and \
+                            lang in ('java', 'groovy') and \
+                            (_unvar(old_obj)[2] or new_s[2]):
                         rel = 'numeric-primitive-conversion'
                     if rel:
-                        prim = '~primitive' if ((old_obj[0] == 'B' and old_obj[2]) or
+                        oo = _unvar(old_obj)
+                        prim = '~primitive' if ((oo[0] == 'B' and oo[2]) or
                                                 (new_s[0] == 'B' and new_s[2])) else ''
                         add('replacement-related', '%s|%s%s' % (
                             rel, 'top' if obs.table.is_top(new_s) else
@@ -306,7 +366,8 @@ class C04(PipelineCheck):
                     'the one before (the overwritten %s is %s)' % (
                         (res['error_injected'] or '')[:100], lang, kind,
                         'hidden by can_infer_type_args / omitted type' if hidden else 'printed?'))
-            elif lang == 'java' and shutil.which('javac') and not v:
+            elif lang == 'java' and shutil.which('javac') and not v and \
+                    obl['javac-rejects'] < 2:
                 # ---- (d) a correct type checker must reject: real javac --------------------
                 obl['javac-rejects'] += 1
                 probes['javac_judged'] = 1
@@ -317,10 +378,9 @@ class C04(PipelineCheck):
                         add('accepted-by-javac', kind,
                             'javac accepts the program although an injection is reported: %s' % (
                                 (res['error_injected'] or '')[:160]))
-        extra = {'probes': probes, 'obligations': obl, 'injected': 1,
-                 'sample': {'config': c, 'kind': kind, 'error_injected': res['error_injected'],
-                            'diff_paths': [p[-90:] for p, _, _ in diff[:4]]}}
-        return list(v.values()), extra
+        return {'injected': 1,
+                'sample': {'config': c, 'kind': kind, 'error_injected': res['error_injected'],
+                           'diff_paths': [p[-90:] for p, _, _ in diff[:4]]}}
 
     @staticmethod
     def _old_type(obs, diff, kind):
